@@ -694,7 +694,7 @@ def modelObs (da db : V) (flags : String) (hasCtx : Bool) : String :=
 
 /-- the concrete Go representation the constructors are supposed to produce (harness op `rep`) -/
 def goRepOf : Rep → String
-  | .num _ => "number"
+  | .num _ => "Number"
   | .gtuple as => s!"GenericTuple(n={as.length})"
   | .charT _ _ => "StringCharTuple"
   | .byteT _ _ => "BytesByteTuple"
